@@ -68,11 +68,13 @@ def find_primitives(ctx, m):
                 if q == 'builtins.getattr' and e.args and is_name(e.args[0], m.cur_var):
                     prims.append(('getattr', n, e))
                 elif q.startswith('local:') and e.args and is_name(e.args[0], m.cur_var):
-                    # a local bound to get_handler('get', ...)
-                    d = deref(cfg, n, e.func)
-                    if isinstance(d, ast.Call) and isinstance(d.func, ast.Attribute) \
+                    # a local bound to get_handler('get', ...) on at least one path
+                    defs = [v for _, v in cfg.reaching_defs(n, e.func.id)] if isinstance(e.func, ast.Name) else []
+                    def _is_lookup(d):
+                        return isinstance(d, ast.Call) and isinstance(d.func, ast.Attribute) \
                             and d.func.attr == 'get_handler' and d.args \
-                            and isinstance(d.args[0], ast.Constant) and d.args[0].value == 'get':
+                            and isinstance(d.args[0], ast.Constant) and d.args[0].value == 'get'
+                    if any(_is_lookup(d) for d in defs):
                         prims.append(('get-handler', n, e))
             elif isinstance(e, ast.Subscript) and isinstance(e.ctx, ast.Load) \
                     and is_name(e.value, m.cur_var) and not isinstance(e.slice, ast.Slice):
@@ -267,6 +269,15 @@ def identity_flow(ctx):
     p = ctx.program
     prims = [(k, n, e) for k, n, e in find_primitives(ctx, m) if k != 'arith']
     for kind, node, expr in prims:
+        if kind == 'get-handler' and isinstance(expr.func, ast.Name):
+            defs = [v for _, v in cfg.reaching_defs(node, expr.func.id)]
+            good = [d for d in defs if isinstance(d, ast.Call) and isinstance(d.func, ast.Attribute) and d.func.attr == 'get_handler'
+                    and len(d.args) > 1 and is_name(d.args[1], m.cur_var)
+                    and isinstance(d.func.value, ast.Subscript) and p.scope_key(u, d.func.value.slice) == 'core.TargetRegistry']
+            ctx.ob(len(good) == len(defs) and bool(defs), u,
+                   'the accessor of a path segment always comes from the scope\'s registry, looked up for the running value',
+                   '' if len(good) == len(defs) else 'on some path the accessor is %s: registrations for that type are bypassed'
+                   % [norm(d) if isinstance(d, ast.AST) else str(d) for d in defs if d not in good], node=expr)
         st = node.ast
         ok = isinstance(st, ast.Assign) and len(st.targets) == 1 and is_name(st.targets[0], m.cur_var) \
             and st.value is expr
